@@ -249,12 +249,13 @@ def _decide(args, P, seed, scratch, t0):
         scan_results.append(sr)
         obligations += 1
         if sr['findings']:
-            for fd in sr['findings']:
-                failures.append(dict(backend='scan', unit='scan:' + sc, fn=str(fd.get('fn')), kind='scan', harness=None,
-                                     clause='%s:%s %s' % (fd['file'], fd['line'], fd['text']),
-                                     obligation='scan::%s::%s:%s' % (sc, fd['file'], fd['line']),
-                                     message=sr['statement'], rendered=json.dumps(fd), in_extracted_fn=True,
-                                     failing_input=fd))
+            # one violation per scan: the obligation is the scan's statement, the failing sites are its input
+            fds = sr['findings']
+            failures.append(dict(backend='scan', unit='scan:' + sc, fn=str(fds[0].get('fn')), kind='scan', harness=None,
+                                 clause='%d site(s), first %s:%s %s' % (len(fds), fds[0]['file'], fds[0]['line'], fds[0]['text']),
+                                 obligation='scan::%s::%s' % (sc, sr['statement'][:160]),
+                                 message=sr['statement'], rendered=json.dumps(fds[:80], indent=1), in_extracted_fn=True,
+                                 failing_input=dict(sites=fds[:80], count=len(fds))))
         else:
             discharged += 1
         assumptions.add('scan %s is syntactic: %s' % (sc, sr['statement']))
@@ -304,6 +305,14 @@ def _decide(args, P, seed, scratch, t0):
                        verifier_output=fl.get('rendered'), backend=fl.get('backend', 'verus'),
                        failing_input=fl.get('failing_input'))
             found = fl.get('failing_input') is not None
+            if fl.get('backend') == 'scan' and fl.get('unit') in vreplay.UNIT_MAP and not undecided:
+                # a scan names source sites; also look for an input that shows the consequence on the real code
+                try:
+                    cex = vreplay.search_unit(REPO, scratch, fl['unit'], seed)
+                except Exception as e:
+                    cex = None
+                if cex:
+                    rep['failing_input'] = dict(fl['failing_input'], **cex)
             if not found and not undecided:
                 try:
                     cex = vreplay.search_counterexample(REPO, VERIF, fl, scratch, seed)
